@@ -29,39 +29,69 @@ type c29sOut struct {
 // c29sRun parses src with the named shipped parser; cancelAt > 0 cancels the context inside the
 // cancelAt-th listener call.
 func c29sRun(parser, src string, cancelAt int) c29sOut {
+	return c29sRunAfter(parser, "", 0, src, cancelAt)
+}
+
+// c29sRunAfter: when prev != "", the SAME Parser object first parses prev with a context that is
+// cancelled inside its prevCancelAt-th listener call (result discarded), then parses src.
+func c29sRunAfter(parser, prev string, prevCancelAt int, src string, cancelAt int) c29sOut {
 	r := c20sGuard(func(ctx0 context.Context, r *c20sRun) {
-		ctx, cancel := context.WithCancel(ctx0)
-		defer cancel()
-		n := 0
+		var cancel context.CancelFunc
+		n, at := 0, 0
+		record := false
 		ev := func(t, off, end int) {
-			r.evs = append(r.evs, c20Ev{t, off, end})
+			if record {
+				r.evs = append(r.evs, c20Ev{t, off, end})
+			}
 			n++
-			if n == cancelAt {
+			if n == at {
 				cancel()
 			}
 		}
+		texts := []string{src}
+		cancels := []int{cancelAt}
+		if prev != "" {
+			texts = []string{prev, src}
+			cancels = []int{prevCancelAt, cancelAt}
+		}
+		var tmP tm.Parser
+		var jsP js.Parser
+		testP := new(tmtest.Parser)
+		tmL := func(nt tm.NodeType, off, end int) { ev(int(nt), off, end) }
+		jsL := func(nt js.NodeType, off, end int) { ev(int(nt), off, end) }
 		switch parser {
 		case "tm":
-			l := func(nt tm.NodeType, off, end int) { ev(int(nt), off, end) }
-			var s tm.TokenStream
-			s.Init(src, l)
-			var p tm.Parser
-			p.Init(func(se tm.SyntaxError) bool { return true }, l)
-			r.err = p.ParseFile(ctx, &s)
+			tmP.Init(func(se tm.SyntaxError) bool { return true }, tmL)
 		case "js":
-			l := func(nt js.NodeType, off, end int) { ev(int(nt), off, end) }
-			var s js.TokenStream
-			s.Init(src, l)
-			s.SetDialect(js.Typescript)
-			var p js.Parser
-			p.Init(func(se js.SyntaxError) bool { return true }, l)
-			r.err = p.ParseModule(ctx, &s)
+			jsP.Init(func(se js.SyntaxError) bool { return true }, jsL)
 		case "test":
-			l := new(tmtest.Lexer)
-			l.Init(src)
-			p := new(tmtest.Parser)
-			p.Init(func(nt tmtest.NodeType, flags tmtest.NodeFlags, off, end int) { ev(int(nt), off, end) })
-			r.err = p.ParseTest(ctx, l)
+			testP.Init(func(nt tmtest.NodeType, flags tmtest.NodeFlags, off, end int) { ev(int(nt), off, end) })
+		}
+		for i, text := range texts {
+			var ctx context.Context
+			ctx, cancel = context.WithCancel(ctx0)
+			n, at = 0, cancels[i]
+			record = i == len(texts)-1
+			var err error
+			switch parser {
+			case "tm":
+				var s tm.TokenStream
+				s.Init(text, tmL)
+				err = tmP.ParseFile(ctx, &s)
+			case "js":
+				var s js.TokenStream
+				s.Init(text, jsL)
+				s.SetDialect(js.Typescript)
+				err = jsP.ParseModule(ctx, &s)
+			case "test":
+				l := new(tmtest.Lexer)
+				l.Init(text)
+				err = testP.ParseTest(ctx, l)
+			}
+			cancel()
+			if record {
+				r.err = err
+			}
 		}
 	})
 	out := c29sOut{evs: r.evs, panicVal: r.panicVal, timeout: r.timeout}
@@ -247,9 +277,33 @@ func c29sCompare(c *Ctx, parser, src string, k int, ref c29sOut, ends []int) {
 	if ek.End <= ek.Off {
 		return // an empty node sits at the lookahead token: no information about the shifted tokens
 	}
+	// Tokens that error recovery skips are consumed without being shifted (recovery does not poll
+	// the context): every token inside a reported SyntaxProblem node is left out of the count
+	// (some of them were shifted before the error and then discarded, so this under-counts).
+	errType := map[string]int{"tm": int(tm.SyntaxProblem), "js": int(js.SyntaxProblem), "test": -1}[parser]
+	skipped := make([]bool, len(ends))
+	for _, e := range out.evs {
+		if e.Ty == errType {
+			for i := c29sTokensUpTo(ends, e.Off); i < len(ends) && ends[i] <= e.End; i++ {
+				skipped[i] = true
+			}
+		}
+	}
+	count := func(from, to int) int { // shifted tokens with index in [from, to)
+		n := 0
+		for i := from; i < to && i < len(ends); i++ {
+			if !skipped[i] {
+				n++
+			}
+		}
+		return n
+	}
 	at := c29sTokensUpTo(ends, ek.End)
 	last := at
 	for _, e := range out.evs[k:] {
+		if e.Ty == errType {
+			continue
+		}
 		if n := c29sTokensUpTo(ends, e.End); n > last {
 			last = n
 		}
@@ -257,8 +311,9 @@ func c29sCompare(c *Ctx, parser, src string, k int, ref c29sOut, ends []int) {
 	if !cancelled {
 		last = len(ends)
 	}
+	after := count(at, last)
 	c.Count("shipped " + parser + ": bounded-stop measured")
-	if last-at > 512+c29sSlack {
-		c.Violate(fmt.Sprintf("cancelled after %d shifted tokens, but at least %d tokens were shifted before the parse stopped (%d > 512 further tokens; result %q)", at, last, last-at, out.err), desc)
+	if after > 512+c29sSlack {
+		c.Violate(fmt.Sprintf("cancelled after token %d, but at least %d further tokens were shifted before the parse stopped (more than 512; tokens inside reported syntax-problem nodes not counted; result %q)", at, after, out.err), desc)
 	}
 }
